@@ -290,14 +290,14 @@ Proof.
   destruct (more || negb (w16 fo =? 0)); [|exists st, (Some v1); auto].
   cbv zeta.
   set (last := w16 (w16 (w16 fo + w16 (vsize v1)) - 1)).
-  set (cl := mkCall (Frag.ipv4FragmentHash 0 h) (w16 fo) last more (tag_views v1 (s_serial st)) 0).
+  set (cl := Frag.mkCall (Frag.ipv4FragmentHash 0 h) (w16 fo) last more (tag_views v1 (s_serial st)) 0).
   destruct (Frag.fprocess (s_frag st) (Frag.ipv4FragmentHash 0 h) (w16 fo) last more (tag_views v1 (s_serial st)) 0)
     as [f' [[res done] panicked]] eqn:Ef.
   assert (Hc : call_ok cl) by (split; apply w16_range).
   pose proof (step_spec (s_frag st) cl f' (res, done, panicked) Hs Hc Ef) as Sp.
   cbv zeta in Sp. destruct Sp as (Ho & _ & Hi & _). clear Ef.
   assert (Hp : panicked = false).
-  { apply (f_equal snd) in Ho. unfold conv in Ho. cbn [snd] in Ho. exact Ho. }
+  { apply (f_equal snd) in Ho. unfold Frag.conv in Ho. cbn [snd] in Ho. exact Ho. }
   clear Ho. subst panicked.
   destruct done; eexists; eexists; (split; [reflexivity|]); (split; [exact Hi|]); [apply untag_ok|exact I].
 Qed.
